@@ -163,10 +163,32 @@ func init() {
 				if len(u.Decl.Body.List) == 1 {
 					if rs, isRet := u.Decl.Body.List[0].(*ast.ReturnStmt); isRet && len(rs.Results) == 1 {
 						if be, isBin := ast.Unparen(rs.Results[0]).(*ast.BinaryExpr); isBin && be.Op == token.LSS {
+							// an accessor helper — `func entryKeyName(pair *LVal) string { return pair.Cells[0].Str }`,
+							// one return of a call-free selector chain — reads the raw key like the chain written in place
+							accessor := func(ce *ast.CallExpr) bool {
+								h := originOf(Callee(info, ce))
+								hd := c.declOf[h]
+								if h == nil || hd == nil || hd.Body == nil || len(hd.Body.List) != 1 {
+									return false
+								}
+								rs, ok := hd.Body.List[0].(*ast.ReturnStmt)
+								if !ok || len(rs.Results) != 1 {
+									return false
+								}
+								plain := true
+								ast.Inspect(rs.Results[0], func(n ast.Node) bool {
+									switch n.(type) {
+									case *ast.CallExpr, *ast.BinaryExpr, *ast.FuncLit:
+										plain = false
+									}
+									return true
+								})
+								return plain
+							}
 							pure := func(e ast.Expr) bool {
 								hasCall := false
 								ast.Inspect(e, func(n ast.Node) bool {
-									if _, isCall := n.(*ast.CallExpr); isCall {
+									if ce, isCall := n.(*ast.CallExpr); isCall && !accessor(ce) {
 										hasCall = true
 									}
 									return true
